@@ -38,6 +38,7 @@ type Obs struct {
 	Names     [][]string `json:"names,omitempty"`   // per file (alphabetical), callee identifier of every wrapper in source order
 	Changed   []bool     `json:"changed,omitempty"` // per file: bytes differ from what was written
 	OtherCh   bool       `json:"other_changed,omitempty"`
+	ExtraCh   []string   `json:"extra_changed,omitempty"` // raw Extra files of package p (other than derived.gen.go) whose bytes changed
 	TypeErr   string     `json:"type_error,omitempty"` // "" = the package type-checks
 	CallsBad  []string   `json:"calls_bad,omitempty"`  // call sites whose callee is not a derived function for exactly the argument types
 	Funcs     []Func     `json:"funcs,omitempty"`
@@ -159,6 +160,13 @@ func RunCase(goderive string, c *Case, v Variant, dir string) (*Obs, error) {
 	}
 	if len(c.Reserved) > 0 {
 		obs.OtherCh = after[c.OtherFile] != srcs[c.OtherFile]
+	}
+	for rel, content := range c.Extra {
+		if filepath.Dir(rel) == "p" && filepath.Base(rel) != "derived.gen.go" {
+			if b, err := os.ReadFile(filepath.Join(dir, rel)); err != nil || string(b) != content {
+				obs.ExtraCh = append(obs.ExtraCh, rel)
+			}
+		}
 	}
 	readBack(obs, c, files, pdir)
 	if len(srcs2) > 0 {
